@@ -4,8 +4,10 @@ import (
 	"errors"
 	"fmt"
 	"os"
+	"runtime"
 	"strings"
 	"sync"
+	"time"
 
 	"hpverif/internal/core"
 	"hpverif/internal/fsx"
@@ -143,6 +145,10 @@ func c03build() {
 			add("stale-handle:dir-at-its-path:"+op.K, []fsx.Step{{K: "WriteFullFile", P: "c", Data: "file", Perm: 0o644}, {K: "Open", P: "c", Flag: os.O_RDWR}, {K: "Remove", P: "c"}, {K: "Mkdir", P: "c", Perm: 0o755}, {K: "WriteFullFile", P: "c/ab", Data: "child", Perm: 0o644}, op, {K: "H.Close"}}...)
 			add("stale-handle:renamed-away:"+op.K, append(append([]fsx.Step(nil), dir...), fsx.Step{K: "Open", P: "a/b/c", Flag: os.O_RDWR}, fsx.Step{K: "Rename", P: "a", P2: "c"}, op, fsx.Step{K: "H.Close"})...)
 		}
+		// a move across mount points onto an existing file, next to entries that look like the library's temporary names
+		add("rename-across-mount-points-over-existing-next-to-temp-lookalikes", fsx.Step{K: "WriteFullFile", P: "b", Data: "top", Perm: 0o644}, fsx.Step{K: "WriteFullFile", P: "a/c", Data: "old", Perm: 0o600},
+			fsx.Step{K: "WriteFullFile", P: "a/c.rename-0", Data: "bystander0", Perm: 0o644}, fsx.Step{K: "WriteFullFile", P: "a/c.rename-1", Data: "bystander1", Perm: 0o644}, fsx.Step{K: "WriteFullFile", P: "a/.c.rename-0", Data: "hidden", Perm: 0o644},
+			fsx.Step{K: "Rename", P: "b", P2: "a/c"}, fsx.Step{K: "ReadFile", P: "a/c"}, fsx.Step{K: "ReadFile", P: "a/c.rename-0"}, fsx.Step{K: "Rename", P: "a/c", P2: "ab/c"}, fsx.Step{K: "Rename", P: "ab/c", P2: "a/c.rename-1"})
 		add("rename-across-mount-points", fsx.Step{K: "WriteFullFile", P: "c", Data: "top", Perm: 0o644}, fsx.Step{K: "Rename", P: "c", P2: "a/c"}, fsx.Step{K: "Rename", P: "a/c", P2: "a/b/c"},
 			fsx.Step{K: "Rename", P: "a/b/c", P2: "ab/c"}, fsx.Step{K: "Rename", P: "ab/c", P2: "c"}, fsx.Step{K: "Rename", P: "a", P2: "b"}, fsx.Step{K: "Rename", P: "a/b", P2: "b"}, fsx.Step{K: "RemoveAll", P: "a"})
 	})
@@ -352,7 +358,21 @@ func c03run(env *core.Env, idx int) core.CaseResult {
 			openedOn = fsx.PathSit(sub.fs, st.P)
 			delete(slots, st.Slot)
 		}
-		r := fsx.Exec(sub.fs, st, &hs, nil)
+		var r fsx.Result
+		if strings.Contains(sname, "mount") && (st.K == "Rename" || st.K == "RemoveAll" || st.K == "MkdirAll") {
+			// the composition layer has loops of its own that make no store calls: the budget cannot see those
+			stuck, why := c03noProgress(sub.budget, func() { r = fsx.Exec(sub.fs, st, &hs, nil) })
+			if stuck {
+				if why == "" {
+					res.Inconclusive = "an operation did not return, no witness of where it is"
+				} else {
+					res.Violate(fmt.Sprintf("C03|%s|%s|%s|nontermination", subjKind(sname), st.K, sit), fmt.Sprintf("[%s] %s did not return: %s", sname, st, why), map[string]any{"subject": sname, "history": fsx.HistoryString(hist)})
+				}
+				break
+			}
+		} else {
+			r = fsx.Exec(sub.fs, st, &hs, nil)
+		}
 		if st.K == "Open" && r.OK() {
 			if openedOn == "missing" {
 				openedOn = "created"
@@ -401,6 +421,56 @@ func c03run(env *core.Env, idx int) core.CaseResult {
 
 // c03handleStep opens existing paths (files, directories, the root) into slots 0..2 and calls the handle's mutators.
 // Handles whose path was removed, renamed or replaced meanwhile stay in their slots and keep being used.
+// c03noProgress runs f and reports whether it failed to return: after 15 s without an answer the store-call counter is
+// read twice, 3 s apart, and all goroutines are dumped. The witness is "no store call in between, and a goroutine
+// running inside the library" (a loop that never asks the store anything) or "parked on a lock".
+func c03noProgress(b *kvs.Budget, f func()) (stuck bool, witness string) {
+	done := make(chan struct{})
+	go func() { defer close(done); f() }()
+	t := time.NewTimer(15 * time.Second)
+	defer t.Stop()
+	select {
+	case <-done:
+		return false, ""
+	case <-t.C:
+	}
+	before := b.TotalCalls()
+	select {
+	case <-done:
+		return false, ""
+	case <-time.After(3 * time.Second):
+	}
+	after := b.TotalCalls()
+	buf := make([]byte, 1<<18)
+	d := string(buf[:runtime.Stack(buf, true)])
+	for _, g := range strings.Split(d, "\n\n") {
+		if !strings.Contains(g, "github.com/hack-pad/hackpadfs") {
+			continue
+		}
+		head := g
+		if i := strings.Index(g, "\n"); i > 0 {
+			head = g[:i]
+		}
+		fn := ""
+		for _, l := range strings.Split(g, "\n")[1:] {
+			if strings.HasPrefix(l, "github.com/hack-pad/hackpadfs") {
+				fn = strings.TrimPrefix(l, "github.com/hack-pad/hackpadfs")
+				if i := strings.Index(fn, "("); i > 0 && !strings.HasPrefix(fn, "/") {
+					fn = fn[:i]
+				}
+				break
+			}
+		}
+		switch {
+		case strings.Contains(g, "sync.(*Mutex).Lock") || strings.Contains(g, "sync.(*RWMutex)") || strings.Contains(g, "semacquire"):
+			return true, "18 s later it is parked on a lock inside " + fn
+		case after == before && (strings.Contains(head, "[running") || strings.Contains(head, "[runnable")):
+			return true, fmt.Sprintf("18 s later it is still running inside %s and made no store call in the last 3 s (%d in all)", fn, after)
+		}
+	}
+	return true, ""
+}
+
 func c03handleStep(g *fsx.Gen, tree fsx.Snap) fsx.Step {
 	slot := g.R.Intn(3)
 	switch k := g.R.Intn(20); {
